@@ -326,7 +326,7 @@ deriving DecidableEq, Repr
 
 structure LWorld where
   counter : Nat
-  cleared : List Nat           -- CLEARED_TIMER_IDS (lib.rs:224-225)
+  cleared : List Nat           -- the ids flagged cleared in LIVE_TIMERS (lib.rs; before the C13 fix: CLEARED_TIMER_IDS)
   timers : List LTimer
 deriving DecidableEq, Repr
 
@@ -365,8 +365,10 @@ def lstep1 (t : LTimer) (inSet : Bool) (newId : Nat) : LAct → LTimer × Out ×
   | .clear =>
     match t.id with
     | none => (t, { res := .na }, .keep, false)
-    -- lib.rs:151-163: the id is inserted and a Clear notification is sent, unconditionally
-    | some id => ({ t with clears := t.clears + 1 }, { effects := [.clear id] }, .insert, false)
+    -- lib.rs `clear`: a Clear notification is sent unconditionally; the id is remembered as cleared only while the timer's
+    -- future exists (LIVE_TIMERS has an entry from `TimerFuture::new` until the future is dropped, i.e. until the task
+    -- that awaits it completes) — a finished timer could never observe the flag and would keep it for ever
+    | some id => ({ t with clears := t.clears + 1 }, { effects := [.clear id] }, if t.finished then .keep else .insert, false)
   | .resolveReq s =>
     match t.id with
     | none => (t, { res := .na }, .keep, false)
